@@ -99,6 +99,9 @@ func (store *Store) InsertLog(ctx context.Context, log *ledger.Log) error {
 					if err.(postgres.ErrConstraintsFailed).GetConstraint() == "logs_idempotency_key" {
 						return NewErrIdempotencyKeyConflict(log.IdempotencyKey)
 					}
+					// any other violated constraint (e.g. a duplicate log id) is an error too:
+					// the SQL transaction is aborted, the caller must not go on
+					return fmt.Errorf("inserting log: %w", err)
 				default:
 					return fmt.Errorf("inserting log: %w", err)
 				}
